@@ -1,4 +1,5 @@
 import Syzgy.Lemmas.Rest
+import Syzgy.Lemmas.RestDocs
 /-!
 # C17 — the REST server behaves as the document-store model, across restarts
 The model *is* the sequential specification: `name ↦ (options, id ↦ metadata)` with the handlers'
@@ -42,5 +43,38 @@ theorem create_ok (s : Server) (name : Bytes) (m : Nat) (dist : Bytes) (dim quan
     ∃ c, handleCollections s b!"POST" (.create true name dist dim quant) = .ok (put s name c, { status := 201 }) := by
   simp only [handleCollections, hd, hv, hnew, hc, ↓reduceIte, Bool.not_true, Bool.false_eq_true, Option.isSome_none]
   exact ⟨_, rfl⟩
+
+/-! ## the document operations of the REST model are those of the C01 specification
+(`docGet` is the metadata map `id ↦ metadata` of one collection; compare `Lemmas/Coll.docSpec`) -/
+
+/-- insert: a validated batch is answered 201 and binds every record of the batch, later ones winning -/
+theorem insert_binds_records (s : Server) (parts : List Bytes) (name : Bytes) (c : RColl) (recs : List InsRec)
+    (hp : parts[4]? = some name) (hl : lookup s name = some c)
+    (hvec : recs.any (fun r => r.vecLen != some c.cfg.dim) = false) :
+    ∃ docs', handleInsert s parts (.insert true recs) = .ok (put s name { c with docs := docs' }, { status := 201 }) ∧
+      lookup (put s name { c with docs := docs' }) name = some { c with docs := docs' } ∧
+      ∀ i, docGet docs' i = recs.foldl (fun m r => if i = r.id then some r.md else m) (docGet c.docs i) :=
+  insert_semantics s parts name c recs hp hl hvec
+
+/-- metadata update: 200 and exactly that document's metadata changes; an id that is not live is 404 and
+    changes nothing -/
+theorem update_changes_one_document (s : Server) (parts : List Bytes) (name idStr : Bytes) (id : Nat) (c : RColl) (md : Bytes)
+    (hlen : ¬ parts.length < 6) (hp : parts[4]? = some name) (hi : parts[parts.length - 2]? = some idStr)
+    (hid : parseId idStr = some id) (hl : lookup s name = some c) :
+    ((docGet c.docs id).isSome = true →
+      handleUpdate s parts (.update true md) = .ok (put s name { c with docs := docPut c.docs id md }, { status := 200 }) ∧
+      ∀ i, docGet (docPut c.docs id md) i = if i = id then some md else docGet c.docs i) ∧
+    ((docGet c.docs id).isSome = false → handleUpdate s parts (.update true md) = .ok (s, { status := 404 })) :=
+  update_semantics s parts name idStr id c md hlen hp hi hid hl
+
+/-- record deletion: 200 and exactly that document disappears; an id that is not live is 404 and changes nothing -/
+theorem delete_removes_one_document (s : Server) (parts : List Bytes) (name idStr : Bytes) (id : Nat) (c : RColl)
+    (hlen : ¬ parts.length < 7) (hp : parts[4]? = some name) (hi : parts[6]? = some idStr)
+    (hid : parseId idStr = some id) (hl : lookup s name = some c) :
+    ((docGet c.docs id).isSome = true →
+      handleDeleteRecord s parts = .ok (put s name { c with docs := c.docs.filter (fun e => e.1 != id) }, { status := 200 }) ∧
+      ∀ i, docGet (c.docs.filter (fun e => e.1 != id)) i = if i = id then none else docGet c.docs i) ∧
+    ((docGet c.docs id).isSome = false → handleDeleteRecord s parts = .ok (s, { status := 404 })) :=
+  delete_semantics s parts name idStr id c hlen hp hi hid hl
 
 end Syzgy.C17
